@@ -385,7 +385,7 @@ MANIFEST_TEXT = {
             "level": "Sequential: every well-formed history up to the depth bound for mockstore and four badgerstore configurations, compared step by step with a Go map and the expected callback list. Concurrent: every interleaving (preemption bound 2, 3 thorough) of three small transaction programs on colliding ids; each execution's call/return history is checked with porcupine against a per-id register model, plus a lock-exclusion monitor, callback thread/count/chain checks and the final content; a fourth program runs two badgerstore handles on one database, so that commits fail with transaction conflicts (a failed operation must run no change callback).",
             "note": "BadgerDB internals run uninstrumented; binary-marshalled value types are not exercised (see DESIGN.md)."},
     "C12": {"engine": "crashx", "technique": "exhaustive crash-image enumeration of recorded write histories: every syscall-boundary prefix and torn-write cut of each workload's strace log is materialised, reopened with the real BadgerDB and judged against the acknowledgement log",
-            "level": "Sixteen recorded runs (4 workloads x prefix set/empty x with/without QueryStore) of the real badgerstore; for every prefix of the recorded file-operation log and every torn cut (1, n/2, n-1 bytes; every byte in the thorough tier) of every value-log write, the image is reopened and checked: content equals the acknowledged state or that with the in-flight call applied, a further Init seeds exactly once, and after RebuildIndexes every index query equals a scan of the stored values.",
+            "level": "Seventeen recorded runs (4 workloads x prefix set/empty x with/without QueryStore, and an Init larger than one BadgerDB transaction) of the real badgerstore; for every prefix of the recorded file-operation log and every torn cut (1, n/2, n-1 bytes; every byte in the thorough tier) of every value-log write, the image is reopened and checked: content equals the acknowledged state or that with the in-flight call applied, a further Init seeds exactly once, and after RebuildIndexes every index query equals a scan of the stored values.",
             "note": "One recorded history per configuration (not all histories); kill points are all syscall boundaries of that history plus torn value-log writes (a torn MANIFEST or SST write cannot result from a process kill and makes BadgerDB itself refuse to open)."},
     "C13": {"engine": "seq", "technique": "bounded-exhaustive mutation histories on the real badgerstore + QueryStore under the scheduler, every query compared with a sorted/filtered/windowed scan of a model map; Flush race explored by the scheduler",
             "level": "Every mutation history up to the depth bound over 3 ids and 10 key vectors (two indexes, nil and empty keys), including two mutations inside one write transaction, with and without store prefix; 16 basic queries after every history and the full 1344-query set on every distinct content of depth<=2, compared with the reference scan; plus an interleaving exploration of mutations racing with Flush and Query.",
